@@ -62,11 +62,17 @@ Definition wiring_ok : bool :=
                                         "transient"; "?"])) option_writes &&
   forallb (fun nrm => String.eqb (snd nrm) "user_pf_options") normalisations.
 
-(* mode heat = the sequential call from the thermal stage on: same phases, same programs *)
+(* mode heat runs the same set-up phases and the same thermal stage program as mode sequential; what
+   differs is the stage in between (stored solution instead of the hydraulic stage) and the mode-specific
+   result extraction *)
+Definition opt_prog_eqb (a b : option prog) : bool :=
+  match a, b with Some p, Some q => prog_eqb p q | _, _ => false end.
+
 Definition heat_tail_ok : bool :=
-  phases_eqb (phases_after "use_given_hydraulic_results" phases_heat_plain)
-             (phases_after "hydraulics" phases_sequential_plain) &&
-  negb (is_nil (phases_after "use_given_hydraulic_results" phases_heat_plain)).
+  forallb (fun n => opt_prog_eqb (get_phase n phases_heat_plain) (get_phase n phases_sequential_plain))
+    ["init_options"; "init_all_result_tables"; "create_lookups"; "initialize_pit";
+     "identify_active_nodes_branches"; "heat_transfer"] &&
+  match get_phase "use_given_hydraulic_results" phases_heat_plain with Some _ => true | None => false end.
 
 Lemma frame_ok_true : frame_ok = true. Proof. vm_compute. reflexivity. Qed.
 Lemma summary_ok_true : summary_ok = true. Proof. vm_compute. reflexivity. Qed.
